@@ -9,6 +9,7 @@ package gosym
 
 import (
 	"fmt"
+	"os"
 	"sort"
 	"strings"
 	"sync"
@@ -131,6 +132,7 @@ func newResult(h string) *Result {
 type Program struct {
 	Prog      *ssa.Program
 	Stubs     map[string]*ssa.Function // qualified target -> stub function
+	Guards    map[string]*ssa.Function // qualified target -> guard (stub applies only when it returns true)
 	FuncHash  func(fn *ssa.Function) string
 	RepoPath  string
 	runtimeES interface{}
@@ -176,6 +178,24 @@ func Explore(p *Program, entry *ssa.Function, cfg Config) *Result {
 		stop    = false
 	)
 	var wg sync.WaitGroup
+	if os.Getenv("VERIF_PROGRESS") != "" {
+		stopProg := make(chan struct{})
+		defer close(stopProg)
+		go func() {
+			for {
+				select {
+				case <-stopProg:
+					return
+				case <-time.After(10 * time.Second):
+					mu.Lock()
+					res.mu.Lock()
+					fmt.Fprintf(os.Stderr, "[progress %s] paths=%d pending=%d active=%d steps=%d oblig=%d viol=%v inconcl=%d\n", cfg.Entry, res.Paths, len(stack), active, res.Steps, res.Obligations, res.ViolCount, len(res.Inconclusive))
+					res.mu.Unlock()
+					mu.Unlock()
+				}
+			}
+		}()
+	}
 	for w := 0; w < cfg.Workers; w++ {
 		wg.Add(1)
 		go func(w int) {
@@ -248,6 +268,7 @@ func Explore(p *Program, entry *ssa.Function, cfg Config) *Result {
 // runPath executes one path and returns the new alternative prefixes.
 func runPath(p *Program, entry *ssa.Function, cfg Config, sol *Solver, prefix []decision, res *Result) (alts [][]decision) {
 	m := newMachine(p, cfg, sol, prefix, res)
+	sol.Fresh()
 	sol.Push()
 	outcome := "done"
 	func() {
@@ -274,9 +295,20 @@ func runPath(p *Program, entry *ssa.Function, cfg Config, sol *Solver, prefix []
 		m.runMain(entry)
 	}()
 	m.killThreads()
-	for sol.Depth() > 0 {
-		sol.Pop()
-	}
+	func() {
+		defer func() {
+			if r := recover(); r != nil {
+				m.inconclusive(fmt.Sprintf("SOLVER-DIED %v", r))
+				sol.Restart()
+			}
+		}()
+		if outcome == "engine-error" && sol.cmd.ProcessState != nil {
+			panic("process exited")
+		}
+		for sol.Depth() > 0 {
+			sol.Pop()
+		}
+	}()
 	m.finish(outcome)
 	return m.alts
 }
